@@ -259,6 +259,14 @@ def check_paths(rep, ix):
         params = {a.arg for a in f.args.args}
         rep.ob('R-C12-PATH', site, 'the output file name is a function of the input-derived path and per-file indices only', ok and not bad,
                found=f'{srcs} depends on {sorted(n for n in names if "." not in n)}; forbidden: {bad}', required='no clock, pid, random, counter or shared state in an output name', node=f, module=m)
+    # BIT: one output per frame array, named from the WHOLE input-derived path (two inputs that differ only in their extension must not
+    # share an output)
+    bf = ix.get_func('TotalDepth.BIT.ToLAS', 'single_bit_path_to_las_path')
+    vals = [x[0] for x in defuse.assignments(bf).get('las_file_name', [])]
+    okb = len(vals) == 1 and isinstance(vals[0], ast.JoinedStr) and vals[0].values and isinstance(vals[0].values[0], ast.FormattedValue) \
+        and isinstance(vals[0].values[0].value, ast.Name) and vals[0].values[0].value.id in {a.arg for a in bf.args.args}
+    rep.ob('R-C12-PATH', 'TotalDepth.BIT.ToLAS:single_bit_path_to_las_path', 'the output name starts with the whole output path of the input file', okb,
+           found=str([ast.unparse(v) for v in vals]), required="f'{path_out}_{index:04d}.las'", node=bf, module=ix.module('TotalDepth.BIT.ToLAS'))
     # distinct inputs must give distinct outputs: only the LAST extension of the input-derived name is replaced (cutting at
     # the first dot maps SURVEY.run1.dlis and SURVEY.run2.dlis to one output that two workers overwrite)
     m = ix.module('TotalDepth.RP66V1.ToLAS')
